@@ -301,6 +301,7 @@ func (s *Swarm) Gossip() (complete mesh.GossipData) {
 // OnGossip merges received data into state and returns "everything new I've just
 // learnt", or nil if nothing in the received data was new.
 func (s *Swarm) OnGossip(buf []byte) (delta mesh.GossipData, err error) {
+	defer recoverGossip(&delta, &err)
 	if len(buf) <= 1 {
 		return nil, nil
 	}
@@ -314,6 +315,7 @@ func (s *Swarm) OnGossip(buf []byte) (delta mesh.GossipData, err error) {
 // OnGossipBroadcast merges received data into state and returns a representation
 // of the received data (typically a delta) for further propagation.
 func (s *Swarm) OnGossipBroadcast(src mesh.PeerName, buf []byte) (delta mesh.GossipData, err error) {
+	defer recoverGossip(&delta, &err)
 	if src == s.name {
 		logging.LogAction("merge", "got our own broadcast")
 		return
@@ -328,6 +330,7 @@ func (s *Swarm) OnGossipBroadcast(src mesh.PeerName, buf []byte) (delta mesh.Gos
 // OnGossipUnicast occurs when the gossip unicast is received. In emitter this is
 // used only to forward message frames around.
 func (s *Swarm) OnGossipUnicast(src mesh.PeerName, buf []byte) (err error) {
+	defer recoverGossip(nil, &err)
 
 	// Decode an incoming message frame
 	frame, err := message.DecodeFrame(buf)
@@ -338,10 +341,33 @@ func (s *Swarm) OnGossipUnicast(src mesh.PeerName, buf []byte) (err error) {
 
 	// Go through each message in the decoded frame
 	for i := range frame {
+
+		// An identifier always carries the fixed part and the contract with at least one
+		// channel level. The handlers index into it (some while holding the trie lock).
+		if len(frame[i].ID) < minMessageID {
+			return errors.New("swarm: malformed message id")
+		}
+
 		s.OnMessage(&frame[i])
 	}
 
 	return nil
+}
+
+// minMessageID is the size of the smallest message identifier: prefix, time, sequence,
+// unique and two ssid elements of 4 bytes each.
+const minMessageID = 24
+
+// recoverGossip makes sure a malformed payload sent by a peer is rejected with an
+// error instead of bringing the whole process down, gossip handlers are invoked
+// by the mesh on goroutines which do not recover.
+func recoverGossip(delta *mesh.GossipData, err *error) {
+	if r := recover(); r != nil {
+		if delta != nil {
+			*delta = nil
+		}
+		*err = fmt.Errorf("swarm: malformed gossip payload: %v", r)
+	}
 }
 
 // Notify notifies the swarm when an event is on/off.
